@@ -36,7 +36,17 @@ JOBS: Dict[str, Dict[str, Any]] = {
     "fail_odd": {"names": ["oh"], "method": "AM1", "converger": [1], "fails": True},
     "loose": {"names": ["hcn"], "method": "AM1", "converger": [1], "eps": 1e-4},
     "md_h2": {"md": True},
+    # shape-collision pairs: same tensor shapes (batch size, padded atom/orbital counts), different contents/order - anything cached by shape goes stale
+    "mix_sp2_a": {"names": ["h2o", "ch2o", "c2h4"], "method": "AM1", "converger": [1], "sp2": [True, 1e-7]},
+    "mix_sp2_b": {"names": ["ch2o", "h2o", "c2h4"], "method": "AM1", "converger": [1], "sp2": [True, 1e-7]},
+    "mix_a": {"names": ["h2o", "ch2o"], "method": "PM3", "converger": [1]},
+    "mix_b": {"names": ["ch2o", "h2o"], "method": "PM3", "converger": [1]},
+    "eqnorb_a": {"names": ["ch4", "co"], "method": "MNDO", "converger": [2]},
+    "eqnorb_b": {"names": ["co", "ch4"], "method": "MNDO", "converger": [2]},
+    "uhf_mix_a": {"names": ["ch2o", "oh"], "method": "AM1", "converger": [1], "uhf": True},
+    "uhf_mix_b": {"names": ["no", "h2o"], "method": "AM1", "converger": [1], "uhf": True},
 }
+COLLIDE = [("mix_sp2_a", "mix_sp2_b"), ("mix_a", "mix_b"), ("eqnorb_a", "eqnorb_b"), ("uhf_mix_a", "uhf_mix_b")]
 KEYS = ["Etot", "force", "q", "e_gap", "Hf"]
 
 
@@ -240,6 +250,11 @@ def gen_cases(ctx: Ctx):
         prefix = [str(v) for v in rng.choice(names, size=k)]
         cases.append(("history", {"job": job, "prefix": prefix}))
     cases.append(("history", {"job": "w_am1", "prefix": ["loose", "fail_odd", "w_pm3_pulay", "md_h2"]}))
+    cases.append(("history", {"job": COLLIDE[0][1], "prefix": [COLLIDE[0][0]]}))
+    cases.append(("history", {"job": COLLIDE[0][0], "prefix": [COLLIDE[0][1]]}))
+    for i, (a, b) in enumerate(COLLIDE[1:] if ctx.thorough else COLLIDE[1:3]):
+        a, b = (a, b) if (ctx.seed + i) % 2 == 0 else (b, a)
+        cases.append(("history", {"job": b, "prefix": [a]}))
     cases.append(("threads", {"job": "batch_mndo", "threads": [2, 7, 16] if ctx.thorough else [4, 16]}))
     cases.append(("dict_reuse", {"a": "w_am1", "b": "w_am1"}))
     cases.append(("dict_reuse", {"a": "cis_ch2o", "b": "cis_ch2o"}))
